@@ -1,6 +1,6 @@
 (* Properties_C04.v — obligations of property C04 (a callback fires exactly when its field changes,
    and sees the new value). *)
-Require Import ObsRun Lemmas_Cb Lemmas_CbText Lemmas_CbRt.
+Require Import ObsRun Lemmas_Cb Lemmas_CbText Lemmas_CbRt Lemmas_CbAf.
 Local Open Scope Z_scope.
 
 (* For EVERY state, every group and each of PI, PTY, TP, TA, MS, ECC, country: the callbacks of that
@@ -65,6 +65,27 @@ Theorem C04_rt_callbacks : forall conv lut g s, Inv conv s -> wf_group g -> b_gr
 Proof. exact rt_callbacks. Qed.
 Print Assumptions C04_rt_callbacks.
 
+(* Alternative frequencies: no AF callback unless the group is 0A with error-free B and C and a
+   first code other than 250; then, for each of the two codes of block C in order, exactly one
+   callback iff that code became listed at that moment (so at most two per call, none for a code
+   already listed or not yet confirmed), passing 87500 + 100 * code kHz and a list that already
+   contains it; no other code changes its listing *)
+Theorem C04_af_callbacks : forall conv lut h g s, reach conv lut h s -> wf_group g ->
+  let evs := filter (isf FAF) (snd (process conv lut g s)) in
+  let a0 := d_af (used s) in
+  let a2 := d_af (used (fst (process conv lut g s))) in
+  let v1 := w_hi (gc g) in let v2 := w_lo (gc g) in
+  if (b_group (gb g) =? 0) && (b_ver (gb g) =? 0) && (eb g =? 0) && (ec g =? 0) && negb (v1 =? 250) then
+    exists a1,
+      evs = (if newly a0 a1 v1 && negb (cb s FAF =? 0) then [af_event s v1 a1] else [])
+            ++ (if newly a1 a2 v2 && negb (cb s FAF =? 0) then [af_event s v2 a2] else [])
+      /\ (forall w, 0 <= w < 256 -> w <> v1 -> af_get a1 w = af_get a0 w)
+      /\ (forall w, 0 <= w < 256 -> w <> v2 -> af_get a2 w = af_get a1 w)
+      /\ (af_get a0 v1 = true -> af_get a1 v1 = true) /\ (af_get a1 v2 = true -> af_get a2 v2 = true)
+  else evs = [] /\ a2 = a0.
+Proof. exact af_callbacks. Qed.
+Print Assumptions C04_af_callbacks.
+
 (* no callback at all outside a successful parse call *)
 Theorem C04_only_parse_calls_notify : forall conv lut s o,
   op_group o = None -> snd (step conv lut s o) = [].
@@ -74,9 +95,8 @@ Proof.
 Qed.
 Print Assumptions C04_only_parse_calls_notify.
 
-(* PARTIAL: for the AF list the
-   statement "callback iff changed, sample = new value" is part of obs_C04 and is evaluated on the
-   model (Example) and on the library (check) but is not yet proved for all runs; the `changed`
-   flag of a text block is proved to be "some addressed cell changed" (upd_string_spec / changed2). *)
+(* Together: every field's callbacks are characterised (seven scalars, PS, PTYN, RT, AF); clock
+   time is C12.  The boolean observer obs_C04 (the same statements in one function over a
+   snapshot pair) is additionally evaluated on the model (Example) and on the library (check). *)
 Example C04_scenario : check_run_u (observer_u 4) scenario = true.
 Proof. vm_compute. reflexivity. Qed.
